@@ -71,6 +71,7 @@ CaseOK(c) ==
     [] c.kind = "recovered" -> RecoveredOK(c)
     [] c.kind = "timeout" -> TimeoutOK(c)
     [] c.kind = "stacksweep" -> StackSweepOK(c)
+    [] c.kind = "resize" -> ReSizeSweepOK(c)
     [] c.kind = "modscan" -> ModScanOK(c)
     [] c.kind = "hook" -> SH!HookTraceOK(c)
     [] c.kind = "queue" -> CQ!QueueTraceOK(c)
